@@ -9,7 +9,9 @@ import vlib
 
 LEVEL = "proof"
 RULE = ("string frames (2..6 feature columns + label, 5..200 rows) x interaction order 2..4 x cap, run through the real "
-        "compute_combined_features with a fresh sampler counter; values from prefix/suffix-related, digit, "
+        "compute_combined_features with a fresh sampler counter; histories of 2..4 batches in one process with binding caps "
+        "(prior counts kept); two large-cardinality frames (3e5 distinct tuples; 1.5e5 distinct of 4e5 rows) decided "
+        "Python-side by injectivity of tuple -> value; values from prefix/suffix-related, digit, "
         "delimiter-and-digit (adversarial for the length-prefixed encoding), unicode and special families, with planted "
         "tuples whose plain concatenations coincide; non-trivial = some new column whose rows are neither all equal nor "
         "all distinct; distinct = distinct canonical cases")
@@ -113,6 +115,42 @@ def gen_case(rng):
     return case
 
 
+def gen_history(rng):
+    """2..4 consecutive batches over the same columns in one process (the sampler's prior counts are NOT cleared
+    between them), binding cap: later batches get combinations other than the leading ones"""
+    nf = rng.randint(3, 5)
+    names = [rng.choice(NAME_POOL) + str(i) for i in range(nf)]
+    label = rng.choice(["label", "y"])
+    pos = rng.randint(0, nf)
+    order = rng.randint(2, min(3, nf - 1))
+    ncand = len(list(itertools.combinations(range(nf), order)))
+    nb = rng.randint(2, 4)
+    cap = rng.randint(1, ncand - 1)
+    batches = []
+    for _ in range(nb):
+        nrows = rng.randint(3, 40)
+        fams = [rng.choice(["prefix", "delim", "unicode", "digits", "special"]) for _ in range(nf)]
+        pools = [column_pool(rng, f) for f in fams]
+        cols = [[rng.choice(pools[j]) for _ in range(nrows)] for j in range(nf)]
+        if rng.random() < 0.5:          # the same value domain in every column: joint values of different pairs differ visibly
+            shared = column_pool(rng, "prefix")
+            cols = [[rng.choice(shared) for _ in range(nrows)] for _ in range(nf)]
+        lab = [rng.choice("01") for _ in range(nrows)]
+        allc = cols[:pos] + [lab] + cols[pos:]
+        batches.append([[allc[j][i] for j in range(nf + 1)] for i in range(nrows)])
+    case = {"names": names[:pos] + [label] + names[pos:], "label": label, "order": order, "cap": cap, "is3mr": False,
+            "batches": batches}
+    if rng.random() < 0.3:
+        case["caps"] = [rng.randint(1, ncand) for _ in range(nb)]
+    return case
+
+
+def large_cases(seed):
+    off = seed % 97
+    return [{"large": {"kind": "grid", "n": 300000, "mod": 1000, "offset": off}},
+            {"large": {"kind": "dup", "n": 400000, "distinct": 150000, "mod": 500, "offset": off}}]
+
+
 def fixed_cases():
     """the witness of the repaired defect, and its relatives"""
     out = []
@@ -181,14 +219,32 @@ HEADER = ("From Coq Require Import List NArith ZArith.\nFrom Outrank Require Imp
           "Import ListNotations.\nOpen Scope N_scope.")
 
 
-def evaluate(cases):
-    """Run implementation and Coq checker; returns per case a dict {fail: None | (clause, detail), ...}."""
+def large_verdict(c, r):
+    """large-cardinality frames, decided Python-side: tuple -> value must be injective and a function"""
+    fail = None
+    if r.get("problem") or r["names"][:3] != ["user", "item", "label"] or r["names"][3:] != ["user AND item"]:
+        fail = ('named by joining its constituent feature names with " AND "', {"names": r["names"], "problem": r.get("problem")})
+    elif not r["index_ok"] or not r.get("prefix_ok"):
+        fail = ("the original columns are left untouched", "large frame: prefix_ok=%s index_ok=%s" % (r.get("prefix_ok"), r["index_ok"]))
+    elif r["distinct_values"] != r["distinct_tuples"] or r["collision"] or r["split"]:
+        fail = ("equal values on two rows iff the rows agree on every constituent feature (up to 64-bit hash collisions)",
+                {"distinct_tuples": r["distinct_tuples"], "distinct_values": r["distinct_values"],
+                 "colliding_tuples": r["collision"], "tuple_with_two_values": r["split"], "value_sample": r.get("value_sample")})
+    return {"fail": fail, "impl": r, "large": True}
+
+
+def evaluate_units(cases):
+    """Run implementation and Coq checker on single frames (a unit with keep_state continues the previous unit's
+    sampler history); returns per unit a dict {fail: None | (clause, detail), ...}."""
     res = vlib.run_impl("impl_c10.py", {"cases": cases})["results"]
     exprs, idx = [], []
     verdicts = [None] * len(cases)
     for i, (c, r) in enumerate(zip(cases, res)):
         if not r["ok"]:
             verdicts[i] = {"fail": ("the call terminates normally", r["error"]), "impl": r}
+            continue
+        if "large" in c:
+            verdicts[i] = large_verdict(c, r)
             continue
         nd = len(c["names"])
         cols = columns_of(c)
@@ -233,6 +289,45 @@ def evaluate(cases):
     return verdicts
 
 
+def units_of(case):
+    if "batches" in case:
+        caps = case.get("caps") or [case["cap"]] * len(case["batches"])
+        out = []
+        for b, rows in enumerate(case["batches"]):
+            u = {"names": case["names"], "rows": rows, "label": case["label"], "order": case["order"], "cap": caps[b],
+                 "is3mr": case.get("is3mr", False)}
+            if b > 0:
+                u["keep_state"] = True
+            out.append(u)
+        return out
+    return [case]
+
+
+def evaluate(cases):
+    """cases may be single frames, histories ({"batches": [...]}: consecutive calls in one process sharing the sampler's
+    prior counts) or large-cardinality frames ({"large": params}).  Per case: first failing unit decides."""
+    flat, owner = [], []
+    for i, c in enumerate(cases):
+        for u in units_of(c):
+            flat.append(u)
+            owner.append(i)
+    uv = evaluate_units(flat)
+    verdicts = [{"fail": None, "units": []} for _ in cases]
+    for u, o, v in zip(flat, owner, uv):
+        d = verdicts[o]
+        b = len(d["units"])
+        d["units"].append((u, v))
+        if v["fail"] and not d["fail"]:
+            d["fail"] = v["fail"]
+            d["batch"] = b
+            d["impl"] = v["impl"]
+            d["coq"] = v.get("coq")
+            d["unit"] = u
+    for d in verdicts:
+        d.setdefault("impl", d["units"][-1][1]["impl"])
+    return verdicts
+
+
 def witness(case, name, col):
     comb = candidate_names(case).get(name)
     if comb is None:
@@ -248,7 +343,21 @@ def witness(case, name, col):
     return None
 
 
-def shrinks(case, fail):
+def shrinks(case, fail, batch=0):
+    if "large" in case:
+        return []
+    if "batches" in case:
+        out = []
+        hist = dict(case, batches=case["batches"][:batch + 1])
+        if case.get("caps"):
+            hist["caps"] = case["caps"][:batch + 1]
+        out.append(hist)
+        w = fail[1].get("witness") if isinstance(fail[1], dict) else None
+        small = [rows[:2] for rows in hist["batches"][:-1]]
+        if w:
+            out.append(dict(hist, batches=small + [[hist["batches"][-1][i] for i in w["rows"]]]))
+        out.append(dict(hist, batches=small + [hist["batches"][-1]]))
+        return out
     out = []
     w = fail[1].get("witness") if isinstance(fail[1], dict) else None
     if w:
@@ -314,6 +423,9 @@ def check(run, replay):
         n = 170 if run.tier == "quick" else 1500
         for _ in range(n):
             cases.append(gen_case(run.rng))
+        for _ in range(40 if run.tier == "quick" else 400):
+            cases.append(gen_history(run.rng))
+        cases.extend(large_cases(run.seed))
         if run.tier == "thorough":
             cases.extend(exhaustive_cases())
     verdicts = evaluate(cases)
@@ -321,7 +433,7 @@ def check(run, replay):
     # informational: the Python mirror of enc used by impl_c10.digest_exact is the Coq enc (sample tuples)
     sample = []
     for c in cases[:40]:
-        for row in c["rows"][:3]:
+        for row in c.get("rows", [])[:3]:
             sample.append(list(row))
     sample = sample[:100] + [[], [""], ["", ""], ["0123456789"], ["x" * 10, "y" * 100]]
     try:
@@ -331,34 +443,50 @@ def check(run, replay):
     except vlib.Broken:
         run.cov["python_mirror_of_enc_equals_coq_enc_on_samples"] = None
 
-    hist = {"rows": {}, "order": {}, "non_default_row_index": sum(1 for c in cases if "index" in c), "binding_cap": 0, "is3mr": 0, "impl_errors": 0, "new_columns": 0,
-            "plain_concatenation_would_alias": 0, "selection_is_first_cap_in_itertools_order": 0}
+    hist = {"rows": {}, "order": {}, "non_default_row_index": sum(1 for c in cases if "index" in c), "histories": 0,
+            "history_batches": 0, "large_frames": [], "binding_cap": 0, "is3mr": 0, "impl_errors": 0, "new_columns": 0,
+            "plain_concatenation_would_alias": 0, "selection_is_first_cap_in_itertools_order": 0,
+            "history_selection_differs_from_first_cap": 0}
     failing = []
     for c, v in zip(cases, verdicts):
-        r = v["impl"]
-        b = min(len(c["rows"]) // 25 * 25, 200)
-        hist["rows"]["%d+" % b] = hist["rows"].get("%d+" % b, 0) + 1
-        hist["order"][c["order"]] = hist["order"].get(c["order"], 0) + 1
-        hist["is3mr"] += 1 if c.get("is3mr") else 0
-        if not r.get("ok"):
-            hist["impl_errors"] += 1
-        else:
-            nd = len(c["names"])
-            hist["new_columns"] += len(r["names"]) - nd
-            if r.get("digest_exact"):
-                hist["columns_equal_to_xxh64_of_model_enc"] = hist.get("columns_equal_to_xxh64_of_model_enc", 0) + r["digest_exact"][0]
-            if 0 <= c["cap"] < v.get("ncand", 0) or c["cap"] < 0:
-                hist["binding_cap"] += 1
-            exp = list(candidate_names(c).keys())
-            k = len(r["names"]) - nd
-            if r["names"][nd:] == exp[:k]:
-                hist["selection_is_first_cap_in_itertools_order"] += 1
-        if old_encoding_aliases(c):
-            hist["plain_concatenation_would_alias"] += 1
-        run.count_case(c, r.get("ok", False) and nontrivial(c, r))
+        nontriv = False
+        if "batches" in c:
+            hist["histories"] += 1
+            hist["history_batches"] += len(c["batches"])
+        for u, uvd in v["units"]:
+            r = uvd["impl"]
+            if "large" in u:
+                hist["large_frames"].append({"params": u["large"], "distinct_tuples": r.get("distinct_tuples"),
+                                             "distinct_values": r.get("distinct_values"), "rows": r.get("nrows")})
+                nontriv = nontriv or bool(r.get("ok"))
+                continue
+            b = min(len(u["rows"]) // 25 * 25, 200)
+            hist["rows"]["%d+" % b] = hist["rows"].get("%d+" % b, 0) + 1
+            hist["order"][u["order"]] = hist["order"].get(u["order"], 0) + 1
+            hist["is3mr"] += 1 if u.get("is3mr") else 0
+            if not r.get("ok"):
+                hist["impl_errors"] += 1
+            else:
+                nd = len(u["names"])
+                hist["new_columns"] += len(r["names"]) - nd
+                if r.get("digest_exact"):
+                    hist["columns_equal_to_xxh64_of_model_enc"] = hist.get("columns_equal_to_xxh64_of_model_enc", 0) + r["digest_exact"][0]
+                if 0 <= u["cap"] < uvd.get("ncand", 0) or u["cap"] < 0:
+                    hist["binding_cap"] += 1
+                exp = list(candidate_names(u).keys())
+                k = len(r["names"]) - nd
+                if r["names"][nd:] == exp[:k]:
+                    hist["selection_is_first_cap_in_itertools_order"] += 1
+                elif u.get("keep_state"):
+                    hist["history_selection_differs_from_first_cap"] += 1
+                nontriv = nontriv or nontrivial(u, r)
+            if old_encoding_aliases(u):
+                hist["plain_concatenation_would_alias"] += 1
+        run.count_case(c, nontriv)
         if v["fail"]:
             failing.append((c, v))
-    run.oblige("correspondence:compute_combined_features output passes C10_check (prefix, names, count, partitions)",
+    run.oblige("correspondence:compute_combined_features output passes C10_check (prefix, names, count, partitions), "
+               "single frames, batch histories and large-cardinality frames",
                not failing, "%d of %d cases rejected" % (len(failing), len(cases)))
 
     # shrink the first few failing cases (one more implementation + Coq round)
@@ -368,7 +496,7 @@ def check(run, replay):
         owner = []
         if replay is None:
             for k, (c, v) in enumerate(todo):
-                for s in shrinks(c, v["fail"]):
+                for s in shrinks(c, v["fail"], v.get("batch", 0)):
                     cand.append(s)
                     owner.append(k)
         sv = []
@@ -384,10 +512,12 @@ def check(run, replay):
                     if len(json.dumps(s)) < len(json.dumps(best)):
                         best, bestv = s, w
             r = bestv["impl"]
-            nd = len(best["names"])
+            if "large" in best:
+                best = dict(best, observed=bestv["fail"][1])      # generator parameters + the colliding tuples
+            nd = len(best.get("names", []))
             run.violation("counterexample", "C10_check on compute_combined_features output", case=best,
                           impl={"names": r.get("names"), "new_columns": r.get("cols", [])[nd:nd + 6],
-                                "error": r.get("error")},
+                                "error": r.get("error"), "failing_batch(0-based)": bestv.get("batch", 0)},
                           model={"coq_verdicts(prefix,count,distinct,names,partitions,ncandidates)": repr(bestv.get("coq"))[:600],
                                  "detail": bestv["fail"][1]},
                           clause=bestv["fail"][0])
@@ -399,7 +529,8 @@ def check(run, replay):
     run.assumptions += [
         "hash cells of each new column are relabelled to ids by a Python dict (equal id <-> equal cell); "
         "hash values are never compared",
-        "the sampler counter GLOBAL_PRIOR_COMB_COUNTS is cleared before each case; which combinations are kept under a "
+        "the sampler counter GLOBAL_PRIOR_COMB_COUNTS (and any other GLOBAL_* container of the module) is cleared before each "
+        "case and kept between the batches of a history case; which combinations are kept under a "
         "binding cap is checked as: distinct, each the join of a candidate, cap_len many (the choice among ties is C07's)",
         "column names contain no ' AND ' (names of distinct combinations are then distinct)",
         "C10_equal_iff / C10_score assume the hash is injective (64-bit collisions are outside the statement)",
